@@ -107,13 +107,25 @@ def gen_insert(eng, rng, n, target="main"):
             pool = ["simFA", "simFB"] if kind == "default" else ["simFC", "simFD"]
         op["name"] = rng.choice(pool, "sname")
         op["name_via"] = rng.choice(["ctor", "arg"], "name_via")
+    if fam in FACTORY_FAMILIES and kind == "common" and rng.chance(0.35, "factory?"):
+        # the library's own predefined data styles (odfdo.style.default_*_style()), each call a new element
+        op["factory"] = True
+        op["name"] = f"lpod-default-{fam}-style"
+        op["name_via"] = "ctor"
     return op
+
+
+FACTORY_FAMILIES = ("number", "percentage", "time", "date", "boolean", "currency")
 
 
 def build_style(op):
     from odfdo import Element, Style
 
     fam, n = op["family"], op["n"]
+    if op.get("factory"):
+        from odfdo import style as _style_module
+
+        return getattr(_style_module, f"default_{fam}_style")()
     name = op.get("name") if op.get("name_via", "ctor") == "ctor" else None
     if fam in XML_FAMILIES:
         xml = XML_FAMILIES[fam].format(name=name or "", n=n, d=n % 4)
@@ -192,6 +204,14 @@ def run_insert(eng, op, doc, feats):
     v = check_lookup(doc, fam, ret, default, inserted, f, "ins_style")
     if v:
         return [v]
+    # ... also under the very name insert_style returned (None for a default style)
+    try:
+        got = doc.get_style(fam, ret)
+    except Exception as e:
+        return [Violation("C13", "lookup-raises", "ins_style", f + ["by_returned_name"], type(e).__name__, str(e))]
+    if got is None or xmlref.c14n(got._Element__element) != inserted:
+        return [Violation("C13", "returned-name-does-not-find-the-style", "ins_style", f, None,
+                          f"insert_style returned {ret!r}; get_style({fam!r}, {ret!r}) gives {'nothing' if got is None else 'another definition'}")]
     eng.c13_inserted.append({"family": fam, "name": ret, "default": default, "c14n": inserted, "key": key})
     return []
 
